@@ -8,7 +8,7 @@ Import ListNotations.
 From CXV Require Import Gen.Blocks Parse.BlocksSM Parse.BlocksSpec Parse.BlocksThms.
 From CXV Require Gen.PinsC03.
 From CXV Require Import Gen.ParserTables Parse.Balanced Parse.BalancedThms Parse.Specs Parse.ClassEnum Parse.CtorDtor.
-From CXV Require Import Gen.TokTy Parse.Declarator Parse.DeclSpec Parse.DeclThms Parse.BaseClause Parse.EnumList Parse.Specs Parse.Init Parse.Members Parse.MethodTail Parse.DeclStmt Parse.MemberStmt Parse.OpName Parse.FinishClass Parse.ConvOp.
+From CXV Require Import Gen.TokTy Parse.Declarator Parse.DeclSpec Parse.DeclThms Parse.BaseClause Parse.EnumList Parse.Specs Parse.Init Parse.Members Parse.MethodTail Parse.DeclStmt Parse.MemberStmt Parse.OpName Parse.FinishClass Parse.ConvOp Parse.OperatorMember.
 Open Scope N_scope.
 
 (* the access delivered with a member equals the backward-scan specification
@@ -240,6 +240,21 @@ Theorem conversion_operator_decodes_partial : forall pre cpre cpost b ls ps va q
      (DOk (mkConv (apply_kws pre mods0) t ps va (apply_end e (quals_of quals)), rest)).
 Proof. exact conv_stmt_roundtrip. Qed.
 
+(* Overloaded operators as members: `spec* T spec* <pointer / reference operators> operator <op> ( params ) quals <end>` is one
+   method whose operator is exactly the tokens written behind `operator` (`( )` for the call operator), with the return
+   type, parameters, specifier flags, qualifier set and ending written *)
+Theorem operator_member_decodes_partial : forall pre post b ls o ps va quals e rest,
+  forallb spec_kw pre = true -> forallb spec_kw post = true ->
+  all_pfx ls = true -> legalL KB ls = true -> op_ok o ->
+  layer_ok (LFn ps va) -> Forall mq_ok quals ->
+  (match e with MeBody soup => bal tk kty T_LIT_123 T_LIT_125 soup | MeCtor _ _ => False | _ => True end) ->
+  let m := apply_kws (pre ++ post) mods0 in
+  let t := wrap (TBase b (m_const m) (m_volatile m)) ls in
+  ev (fun f => op_member_stmt f (kw_toks pre ++ nm_tok b :: kw_toks post ++ P ls [] ++ ktok T_operator :: op_toks o ++
+                                 ktok LP :: params_toks ps va ++ ktok RP :: flat_map mq_toks quals ++ mlast_toks e ++ rest))
+     (DOk (mkOpM m (op_toks o) t ps va (apply_end e (quals_of quals)), rest)).
+Proof. exact op_member_roundtrip. Qed.
+
 (* the functions the hand-written models above mirror (_parse_class_decl, _parse_class_decl_base_clause, _maybe_parse_class_enum_decl, _parse_decl, _parse_method_end, _discard_ctor_initializer, _parse_field, _parse_bitfield, _parse_declarations, _parse_function, _parse_pqname_name_operator, _parse_operator_conversion and _finish_class_or_enum) are, token for
    token of their syntax trees, the ones the models were written against: the
    translator recomputes the digests from the live code and produces Gen/PinsC03.v
@@ -295,6 +310,7 @@ Print Assumptions trailing_member_declarators_decode_partial.
 Print Assumptions definition_closed_by_semicolon.
 Print Assumptions anonymous_id_shared_by_its_declarators.
 Print Assumptions conversion_operator_decodes_partial.
+Print Assumptions operator_member_decodes_partial.
 
 (* `static Foo * f1 : 3 = 1, & m2 ( Bar a ) const noexcept = 0 ;` and `explicit Cls ( ) : a ( 1 ) { }` in class Cls (ids 5 / 6) *)
 Example c03_member_stmt_run :
